@@ -9,6 +9,12 @@ type nat =
 | O
 | S of nat
 
+(** val option_map : ('a1 -> 'a2) -> 'a1 option -> 'a2 option **)
+
+let option_map f = function
+| Some a -> Some (f a)
+| None -> None
+
 (** val fst : ('a1 * 'a2) -> 'a1 **)
 
 let fst = function
@@ -53,6 +59,13 @@ module Coq__1 = struct
 end
 include Coq__1
 
+(** val mul : nat -> nat -> nat **)
+
+let rec mul n m =
+  match n with
+  | O -> O
+  | S p -> add m (mul p m)
+
 (** val sub : nat -> nat -> nat **)
 
 let rec sub n m =
@@ -64,6 +77,15 @@ let rec sub n m =
 
 module Nat =
  struct
+  (** val sub : nat -> nat -> nat **)
+
+  let rec sub n m =
+    match n with
+    | O -> n
+    | S k -> (match m with
+              | O -> n
+              | S l -> sub k l)
+
   (** val eqb : nat -> nat -> bool **)
 
   let rec eqb n m =
@@ -88,7 +110,35 @@ module Nat =
 
   let ltb n m =
     leb (S n) m
+
+  (** val divmod : nat -> nat -> nat -> nat -> nat * nat **)
+
+  let rec divmod x y q0 u =
+    match x with
+    | O -> (q0, u)
+    | S x' ->
+      (match u with
+       | O -> divmod x' y (S q0) y
+       | S u' -> divmod x' y q0 u')
+
+  (** val div : nat -> nat -> nat **)
+
+  let div x y = match y with
+  | O -> y
+  | S y' -> fst (divmod x y' O y')
+
+  (** val modulo : nat -> nat -> nat **)
+
+  let modulo x = function
+  | O -> x
+  | S y' -> sub y' (snd (divmod x y' O y'))
  end
+
+(** val tl : 'a1 list -> 'a1 list **)
+
+let tl = function
+| [] -> []
+| _ :: m -> m
 
 (** val nth : nat -> 'a1 list -> 'a1 -> 'a1 **)
 
@@ -111,11 +161,31 @@ let rec nth_error l = function
            | [] -> None
            | _ :: l0 -> nth_error l0 n0)
 
+(** val removelast : 'a1 list -> 'a1 list **)
+
+let rec removelast = function
+| [] -> []
+| a :: l0 -> (match l0 with
+              | [] -> []
+              | _ :: _ -> a :: (removelast l0))
+
+(** val rev : 'a1 list -> 'a1 list **)
+
+let rec rev = function
+| [] -> []
+| x :: l' -> app (rev l') (x :: [])
+
 (** val map : ('a1 -> 'a2) -> 'a1 list -> 'a2 list **)
 
 let rec map f = function
 | [] -> []
 | a :: t -> (f a) :: (map f t)
+
+(** val flat_map : ('a1 -> 'a2 list) -> 'a1 list -> 'a2 list **)
+
+let rec flat_map f = function
+| [] -> []
+| x :: t -> app (f x) (flat_map f t)
 
 (** val fold_left : ('a1 -> 'a2 -> 'a1) -> 'a2 list -> 'a1 -> 'a1 **)
 
@@ -147,10 +217,10 @@ let rec filter f = function
 let rec combine l l' =
   match l with
   | [] -> []
-  | x :: tl ->
+  | x :: tl0 ->
     (match l' with
      | [] -> []
-     | y :: tl' -> (x, y) :: (combine tl tl'))
+     | y :: tl' -> (x, y) :: (combine tl0 tl'))
 
 (** val firstn : nat -> 'a1 list -> 'a1 list **)
 
@@ -160,6 +230,12 @@ let rec firstn n l =
   | S n0 -> (match l with
              | [] -> []
              | a :: l0 -> a :: (firstn n0 l0))
+
+(** val seq : nat -> nat -> nat list **)
+
+let rec seq start = function
+| O -> []
+| S len1 -> start :: (seq (S start) len1)
 
 (** val repeat : 'a1 -> nat -> 'a1 list **)
 
@@ -179,6 +255,14 @@ type z =
 
 module Pos =
  struct
+  type mask =
+  | IsNul
+  | IsPos of positive
+  | IsNeg
+ end
+
+module Coq_Pos =
+ struct
   (** val succ : positive -> positive **)
 
   let rec succ = function
@@ -192,17 +276,17 @@ module Pos =
     match x with
     | XI p ->
       (match y with
-       | XI q -> XO (add_carry p q)
-       | XO q -> XI (add p q)
+       | XI q0 -> XO (add_carry p q0)
+       | XO q0 -> XI (add p q0)
        | XH -> XO (succ p))
     | XO p ->
       (match y with
-       | XI q -> XI (add p q)
-       | XO q -> XO (add p q)
+       | XI q0 -> XI (add p q0)
+       | XO q0 -> XO (add p q0)
        | XH -> XI p)
     | XH -> (match y with
-             | XI q -> XO (succ q)
-             | XO q -> XI q
+             | XI q0 -> XO (succ q0)
+             | XO q0 -> XI q0
              | XH -> XO XH)
 
   (** val add_carry : positive -> positive -> positive **)
@@ -211,18 +295,18 @@ module Pos =
     match x with
     | XI p ->
       (match y with
-       | XI q -> XI (add_carry p q)
-       | XO q -> XO (add_carry p q)
+       | XI q0 -> XI (add_carry p q0)
+       | XO q0 -> XO (add_carry p q0)
        | XH -> XI (succ p))
     | XO p ->
       (match y with
-       | XI q -> XO (add_carry p q)
-       | XO q -> XI (add p q)
+       | XI q0 -> XO (add_carry p q0)
+       | XO q0 -> XI (add p q0)
        | XH -> XO (succ p))
     | XH ->
       (match y with
-       | XI q -> XI (succ q)
-       | XO q -> XO (succ q)
+       | XI q0 -> XI (succ q0)
+       | XO q0 -> XO (succ q0)
        | XH -> XI XH)
 
   (** val pred_double : positive -> positive **)
@@ -232,6 +316,72 @@ module Pos =
   | XO p -> XI (pred_double p)
   | XH -> XH
 
+  type mask = Pos.mask =
+  | IsNul
+  | IsPos of positive
+  | IsNeg
+
+  (** val succ_double_mask : mask -> mask **)
+
+  let succ_double_mask = function
+  | IsNul -> IsPos XH
+  | IsPos p -> IsPos (XI p)
+  | IsNeg -> IsNeg
+
+  (** val double_mask : mask -> mask **)
+
+  let double_mask = function
+  | IsPos p -> IsPos (XO p)
+  | x0 -> x0
+
+  (** val double_pred_mask : positive -> mask **)
+
+  let double_pred_mask = function
+  | XI p -> IsPos (XO (XO p))
+  | XO p -> IsPos (XO (pred_double p))
+  | XH -> IsNul
+
+  (** val sub_mask : positive -> positive -> mask **)
+
+  let rec sub_mask x y =
+    match x with
+    | XI p ->
+      (match y with
+       | XI q0 -> double_mask (sub_mask p q0)
+       | XO q0 -> succ_double_mask (sub_mask p q0)
+       | XH -> IsPos (XO p))
+    | XO p ->
+      (match y with
+       | XI q0 -> succ_double_mask (sub_mask_carry p q0)
+       | XO q0 -> double_mask (sub_mask p q0)
+       | XH -> IsPos (pred_double p))
+    | XH -> (match y with
+             | XH -> IsNul
+             | _ -> IsNeg)
+
+  (** val sub_mask_carry : positive -> positive -> mask **)
+
+  and sub_mask_carry x y =
+    match x with
+    | XI p ->
+      (match y with
+       | XI q0 -> succ_double_mask (sub_mask_carry p q0)
+       | XO q0 -> double_mask (sub_mask p q0)
+       | XH -> IsPos (pred_double p))
+    | XO p ->
+      (match y with
+       | XI q0 -> double_mask (sub_mask_carry p q0)
+       | XO q0 -> succ_double_mask (sub_mask_carry p q0)
+       | XH -> double_pred_mask p)
+    | XH -> IsNeg
+
+  (** val sub : positive -> positive -> positive **)
+
+  let sub x y =
+    match sub_mask x y with
+    | IsPos z0 -> z0
+    | _ -> XH
+
   (** val mul : positive -> positive -> positive **)
 
   let rec mul x y =
@@ -240,19 +390,26 @@ module Pos =
     | XO p -> XO (mul p y)
     | XH -> y
 
+  (** val size_nat : positive -> nat **)
+
+  let rec size_nat = function
+  | XI p0 -> S (size_nat p0)
+  | XO p0 -> S (size_nat p0)
+  | XH -> S O
+
   (** val compare_cont : comparison -> positive -> positive -> comparison **)
 
   let rec compare_cont r x y =
     match x with
     | XI p ->
       (match y with
-       | XI q -> compare_cont r p q
-       | XO q -> compare_cont Gt p q
+       | XI q0 -> compare_cont r p q0
+       | XO q0 -> compare_cont Gt p q0
        | XH -> Gt)
     | XO p ->
       (match y with
-       | XI q -> compare_cont Lt p q
-       | XO q -> compare_cont r p q
+       | XI q0 -> compare_cont Lt p q0
+       | XO q0 -> compare_cont r p q0
        | XH -> Gt)
     | XH -> (match y with
              | XH -> r
@@ -262,6 +419,43 @@ module Pos =
 
   let compare =
     compare_cont Eq
+
+  (** val ggcdn :
+      nat -> positive -> positive -> positive * (positive * positive) **)
+
+  let rec ggcdn n a b =
+    match n with
+    | O -> (XH, (a, b))
+    | S n0 ->
+      (match a with
+       | XI a' ->
+         (match b with
+          | XI b' ->
+            (match compare a' b' with
+             | Eq -> (a, (XH, XH))
+             | Lt ->
+               let (g, p) = ggcdn n0 (sub b' a') a in
+               let (ba, aa) = p in (g, (aa, (add aa (XO ba))))
+             | Gt ->
+               let (g, p) = ggcdn n0 (sub a' b') b in
+               let (ab, bb) = p in (g, ((add bb (XO ab)), bb)))
+          | XO b0 ->
+            let (g, p) = ggcdn n0 a b0 in
+            let (aa, bb) = p in (g, (aa, (XO bb)))
+          | XH -> (XH, (a, XH)))
+       | XO a0 ->
+         (match b with
+          | XI _ ->
+            let (g, p) = ggcdn n0 a0 b in
+            let (aa, bb) = p in (g, ((XO aa), bb))
+          | XO b0 -> let (g, p) = ggcdn n0 a0 b0 in ((XO g), p)
+          | XH -> (XH, (a, XH)))
+       | XH -> (XH, (XH, b)))
+
+  (** val ggcd : positive -> positive -> positive * (positive * positive) **)
+
+  let ggcd a b =
+    ggcdn (Coq__1.add (size_nat a) (size_nat b)) a b
 
   (** val iter_op : ('a1 -> 'a1 -> 'a1) -> positive -> 'a1 -> 'a1 **)
 
@@ -297,13 +491,13 @@ module Z =
   let succ_double = function
   | Z0 -> Zpos XH
   | Zpos p -> Zpos (XI p)
-  | Zneg p -> Zneg (Pos.pred_double p)
+  | Zneg p -> Zneg (Coq_Pos.pred_double p)
 
   (** val pred_double : z -> z **)
 
   let pred_double = function
   | Z0 -> Zneg XH
-  | Zpos p -> Zpos (Pos.pred_double p)
+  | Zpos p -> Zpos (Coq_Pos.pred_double p)
   | Zneg p -> Zneg (XI p)
 
   (** val pos_sub : positive -> positive -> z **)
@@ -312,18 +506,18 @@ module Z =
     match x with
     | XI p ->
       (match y with
-       | XI q -> double (pos_sub p q)
-       | XO q -> succ_double (pos_sub p q)
+       | XI q0 -> double (pos_sub p q0)
+       | XO q0 -> succ_double (pos_sub p q0)
        | XH -> Zpos (XO p))
     | XO p ->
       (match y with
-       | XI q -> pred_double (pos_sub p q)
-       | XO q -> double (pos_sub p q)
-       | XH -> Zpos (Pos.pred_double p))
+       | XI q0 -> pred_double (pos_sub p q0)
+       | XO q0 -> double (pos_sub p q0)
+       | XH -> Zpos (Coq_Pos.pred_double p))
     | XH ->
       (match y with
-       | XI q -> Zneg (XO q)
-       | XO q -> Zneg (Pos.pred_double q)
+       | XI q0 -> Zneg (XO q0)
+       | XO q0 -> Zneg (Coq_Pos.pred_double q0)
        | XH -> Z0)
 
   (** val add : z -> z -> z **)
@@ -334,13 +528,13 @@ module Z =
     | Zpos x' ->
       (match y with
        | Z0 -> x
-       | Zpos y' -> Zpos (Pos.add x' y')
+       | Zpos y' -> Zpos (Coq_Pos.add x' y')
        | Zneg y' -> pos_sub x' y')
     | Zneg x' ->
       (match y with
        | Z0 -> x
        | Zpos y' -> pos_sub y' x'
-       | Zneg y' -> Zneg (Pos.add x' y'))
+       | Zneg y' -> Zneg (Coq_Pos.add x' y'))
 
   (** val opp : z -> z **)
 
@@ -357,13 +551,13 @@ module Z =
     | Zpos x' ->
       (match y with
        | Z0 -> Z0
-       | Zpos y' -> Zpos (Pos.mul x' y')
-       | Zneg y' -> Zneg (Pos.mul x' y'))
+       | Zpos y' -> Zpos (Coq_Pos.mul x' y')
+       | Zneg y' -> Zneg (Coq_Pos.mul x' y'))
     | Zneg x' ->
       (match y with
        | Z0 -> Z0
-       | Zpos y' -> Zneg (Pos.mul x' y')
-       | Zneg y' -> Zpos (Pos.mul x' y'))
+       | Zpos y' -> Zneg (Coq_Pos.mul x' y')
+       | Zneg y' -> Zpos (Coq_Pos.mul x' y'))
 
   (** val compare : z -> z -> comparison **)
 
@@ -374,12 +568,26 @@ module Z =
              | Zpos _ -> Lt
              | Zneg _ -> Gt)
     | Zpos x' -> (match y with
-                  | Zpos y' -> Pos.compare x' y'
+                  | Zpos y' -> Coq_Pos.compare x' y'
                   | _ -> Gt)
     | Zneg x' ->
       (match y with
-       | Zneg y' -> compOpp (Pos.compare x' y')
+       | Zneg y' -> compOpp (Coq_Pos.compare x' y')
        | _ -> Lt)
+
+  (** val sgn : z -> z **)
+
+  let sgn = function
+  | Z0 -> Z0
+  | Zpos _ -> Zpos XH
+  | Zneg _ -> Zneg XH
+
+  (** val leb : z -> z -> bool **)
+
+  let leb x y =
+    match compare x y with
+    | Gt -> false
+    | _ -> true
 
   (** val ltb : z -> z -> bool **)
 
@@ -388,18 +596,114 @@ module Z =
     | Lt -> true
     | _ -> false
 
+  (** val abs : z -> z **)
+
+  let abs = function
+  | Zneg p -> Zpos p
+  | x -> x
+
   (** val to_nat : z -> nat **)
 
   let to_nat = function
-  | Zpos p -> Pos.to_nat p
+  | Zpos p -> Coq_Pos.to_nat p
   | _ -> O
 
   (** val of_nat : nat -> z **)
 
   let of_nat = function
   | O -> Z0
-  | S n0 -> Zpos (Pos.of_succ_nat n0)
+  | S n0 -> Zpos (Coq_Pos.of_succ_nat n0)
+
+  (** val to_pos : z -> positive **)
+
+  let to_pos = function
+  | Zpos p -> p
+  | _ -> XH
+
+  (** val ggcd : z -> z -> z * (z * z) **)
+
+  let ggcd a b =
+    match a with
+    | Z0 -> ((abs b), (Z0, (sgn b)))
+    | Zpos a0 ->
+      (match b with
+       | Z0 -> ((abs a), ((sgn a), Z0))
+       | Zpos b0 ->
+         let (g, p) = Coq_Pos.ggcd a0 b0 in
+         let (aa, bb) = p in ((Zpos g), ((Zpos aa), (Zpos bb)))
+       | Zneg b0 ->
+         let (g, p) = Coq_Pos.ggcd a0 b0 in
+         let (aa, bb) = p in ((Zpos g), ((Zpos aa), (Zneg bb))))
+    | Zneg a0 ->
+      (match b with
+       | Z0 -> ((abs a), ((sgn a), Z0))
+       | Zpos b0 ->
+         let (g, p) = Coq_Pos.ggcd a0 b0 in
+         let (aa, bb) = p in ((Zpos g), ((Zneg aa), (Zpos bb)))
+       | Zneg b0 ->
+         let (g, p) = Coq_Pos.ggcd a0 b0 in
+         let (aa, bb) = p in ((Zpos g), ((Zneg aa), (Zneg bb))))
  end
+
+(** val zeq_bool : z -> z -> bool **)
+
+let zeq_bool x y =
+  match Z.compare x y with
+  | Eq -> true
+  | _ -> false
+
+type q = { qnum : z; qden : positive }
+
+(** val qeq_bool : q -> q -> bool **)
+
+let qeq_bool x y =
+  zeq_bool (Z.mul x.qnum (Zpos y.qden)) (Z.mul y.qnum (Zpos x.qden))
+
+(** val qle_bool : q -> q -> bool **)
+
+let qle_bool x y =
+  Z.leb (Z.mul x.qnum (Zpos y.qden)) (Z.mul y.qnum (Zpos x.qden))
+
+(** val qplus : q -> q -> q **)
+
+let qplus x y =
+  { qnum = (Z.add (Z.mul x.qnum (Zpos y.qden)) (Z.mul y.qnum (Zpos x.qden)));
+    qden = (Coq_Pos.mul x.qden y.qden) }
+
+(** val qmult : q -> q -> q **)
+
+let qmult x y =
+  { qnum = (Z.mul x.qnum y.qnum); qden = (Coq_Pos.mul x.qden y.qden) }
+
+(** val qopp : q -> q **)
+
+let qopp x =
+  { qnum = (Z.opp x.qnum); qden = x.qden }
+
+(** val qminus : q -> q -> q **)
+
+let qminus x y =
+  qplus x (qopp y)
+
+(** val qinv : q -> q **)
+
+let qinv x =
+  match x.qnum with
+  | Z0 -> { qnum = Z0; qden = XH }
+  | Zpos p -> { qnum = (Zpos x.qden); qden = p }
+  | Zneg p -> { qnum = (Zneg x.qden); qden = p }
+
+(** val qdiv : q -> q -> q **)
+
+let qdiv x y =
+  qmult x (qinv y)
+
+(** val qred : q -> q **)
+
+let qred q0 =
+  let { qnum = q1; qden = q2 } = q0 in
+  let (r1, r2) = snd (Z.ggcd q1 (Zpos q2)) in
+  { qnum = r1; qden = (Z.to_pos r2) }
 
 type sx =
 | SZ of z
@@ -451,6 +755,44 @@ let dlist f = function
 | SZ _ -> None
 | SL l -> opt_all (map f l)
 
+(** val dq : sx -> q option **)
+
+let dq = function
+| SZ _ -> None
+| SL l ->
+  (match l with
+   | [] -> None
+   | s0 :: l0 ->
+     (match s0 with
+      | SZ n ->
+        (match l0 with
+         | [] -> None
+         | s1 :: l1 ->
+           (match s1 with
+            | SZ d ->
+              (match l1 with
+               | [] ->
+                 if Z.ltb Z0 d
+                 then Some { qnum = n; qden = (Z.to_pos d) }
+                 else None
+               | _ :: _ -> None)
+            | SL _ -> None))
+      | SL _ -> None))
+
+(** val dopt : (sx -> 'a1 option) -> sx -> 'a1 option option **)
+
+let dopt f = function
+| SZ _ -> None
+| SL l ->
+  (match l with
+   | [] -> Some None
+   | x :: l0 ->
+     (match l0 with
+      | [] -> (match f x with
+               | Some v -> Some (Some v)
+               | None -> None)
+      | _ :: _ -> None))
+
 (** val ez : z -> sx **)
 
 let ez z0 =
@@ -470,6 +812,11 @@ let ebool b =
 
 let elist f l =
   SL (map f l)
+
+(** val eq_ : q -> sx **)
+
+let eq_ q0 =
+  let r = qred q0 in SL ((SZ r.qnum) :: ((SZ (Zpos r.qden)) :: []))
 
 (** val eopt : ('a1 -> sx) -> 'a1 option -> sx **)
 
@@ -758,9 +1105,9 @@ let run_op s o =
                                    (match dbool k with
                                     | Some kk ->
                                       (match dlist dtransform ts with
-                                       | Some tl ->
+                                       | Some tl0 ->
                                          let (s', r) =
-                                           add0 s.s_store idxs xs tl kk
+                                           add0 s.s_store idxs xs tl0 kk
                                          in
                                          ({ s_store = s'; s_iters =
                                          s.s_iters },
@@ -911,3 +1258,801 @@ let run_C13 = function
                  SL (run_ops { s_store = (init cc); s_iters = [] } ops)
                | None -> sx_fail)
             | _ :: _ -> sx_fail))))
+
+(** val prod0 : nat list -> nat **)
+
+let rec prod0 = function
+| [] -> S O
+| d :: t -> mul d (prod0 t)
+
+(** val unravel : nat list -> nat -> nat list **)
+
+let rec unravel dims i =
+  match dims with
+  | [] -> []
+  | _ :: dt ->
+    (Nat.div i (prod0 dt)) :: (unravel dt (Nat.modulo i (prod0 dt)))
+
+type elite = { e_index : nat; e_obj : q; e_meas : q list }
+
+type listing = elite list
+
+type geometry = { g_dims : nat list; g_boundaries : q list list;
+                  g_lower : q list; g_upper : q list;
+                  g_centroids : q list list }
+
+type world = { w_geom : geometry; w_elites : listing; w_frame : listing option }
+
+type opts = { o_df : bool; o_transpose : bool; o_vmin : q option;
+              o_vmax : q option; o_sort : bool; o_order : nat list option;
+              o_lines : bool; o_bounds : (q list * q list) option }
+
+(** val qnth : q list -> nat -> q **)
+
+let qnth l i =
+  nth i l { qnum = Z0; qden = XH }
+
+(** val pair2 : q list -> q * q **)
+
+let pair2 l =
+  ((qnth l O), (qnth l (S O)))
+
+(** val flip2 : ('a1 * 'a1) -> 'a1 * 'a1 **)
+
+let flip2 p =
+  ((snd p), (fst p))
+
+(** val qmin : q -> q -> q **)
+
+let qmin a b =
+  if qle_bool a b then a else b
+
+(** val qmax : q -> q -> q **)
+
+let qmax a b =
+  if qle_bool a b then b else a
+
+(** val min_list : q list -> q option **)
+
+let min_list = function
+| [] -> None
+| x :: t -> Some (fold_left qmin t x)
+
+(** val max_list : q list -> q option **)
+
+let max_list = function
+| [] -> None
+| x :: t -> Some (fold_left qmax t x)
+
+(** val pick : q option -> q option -> q option **)
+
+let pick explicit dflt =
+  match explicit with
+  | Some v -> Some v
+  | None -> dflt
+
+(** val limits_strict : q option -> q option -> q list -> (q * q) result **)
+
+let limits_strict vmin vmax objs =
+  match pick vmin (min_list objs) with
+  | Some lo ->
+    (match pick vmax (max_list objs) with
+     | Some hi -> Ok (lo, hi)
+     | None -> Err ValueError)
+  | None -> Err ValueError
+
+(** val c001 : q **)
+
+let c001 =
+  { qnum = (Zpos (XI (XI (XO (XI (XI (XI (XI (XO (XO (XO (XI (XO (XI (XO (XO
+    (XO (XO (XI (XI (XI (XO (XI (XO (XI (XI (XI (XI (XO (XO (XO (XI (XO (XI
+    (XO (XO (XO (XO (XI (XI (XI (XO (XI (XO (XI (XI (XI (XI (XO (XO (XO (XI
+    (XO XH))))))))))))))))))))))))))))))))))))))))))))))))))))); qden = (XO
+    (XO (XO (XO (XO (XO (XO (XO (XO (XO (XO (XO (XO (XO (XO (XO (XO (XO (XO
+    (XO (XO (XO (XO (XO (XO (XO (XO (XO (XO (XO (XO (XO (XO (XO (XO (XO (XO
+    (XO (XO (XO (XO (XO (XO (XO (XO (XO (XO (XO (XO (XO (XO (XO (XO (XO (XO
+    (XO (XO (XO (XO
+    XH))))))))))))))))))))))))))))))))))))))))))))))))))))))))))) }
+
+(** val somes : 'a1 option list -> 'a1 list **)
+
+let somes l =
+  flat_map (fun o -> match o with
+                     | Some x -> x :: []
+                     | None -> []) l
+
+(** val all_below : nat -> nat list -> bool **)
+
+let all_below n idxs =
+  forallb (fun i -> Nat.ltb i n) idxs
+
+(** val scatter : 'a1 list -> nat list -> 'a1 list -> 'a1 list **)
+
+let scatter a ks vs =
+  fold_left (fun a0 kv -> upd a0 (fst kv) (snd kv)) (combine ks vs) a
+
+(** val set2 : 'a1 list list -> nat -> nat -> 'a1 -> 'a1 list list **)
+
+let set2 m y x v =
+  upd m y (upd (nth y m []) x v)
+
+(** val scatter2 :
+    'a1 list list -> (nat * nat) list -> 'a1 list -> 'a1 list list **)
+
+let scatter2 m ks vs =
+  fold_left (fun m0 kv -> set2 m0 (fst (fst kv)) (snd (fst kv)) (snd kv))
+    (combine ks vs) m
+
+(** val transpose : 'a1 -> nat -> 'a1 list list -> 'a1 list list **)
+
+let transpose d ncols m =
+  map (fun x -> map (fun row -> nth x row d) m) (seq O ncols)
+
+type heatmap = { hm_xb : q list; hm_yb : q list;
+                 hm_colors : q option list list; hm_xlim : (q * q);
+                 hm_ylim : (q * q) option; hm_clim : (q option * q option);
+                 hm_markers : (q * q) list }
+
+type scatterplot = { sc_offsets : (q * q) list; sc_array : q list;
+                     sc_vlines : (q * (q * q)) list;
+                     sc_hlines : (q * (q * q)) list; sc_xlim : (q * q);
+                     sc_ylim : (q * q); sc_clim : (q * q) }
+
+type voronoi = { vo_sites : (q * q) list; vo_obj : q option list;
+                 vo_t : q option list; vo_xlim : (q * q); vo_ylim : (q * q);
+                 vo_clim : (q * q) option; vo_markers : (q * q) list }
+
+type parallel = { pa_lines : q list list; pa_objs : q list; pa_t : q list;
+                  pa_ylims : (q * q) list; pa_clim : (q option * q option) }
+
+type picture =
+| PHeat of heatmap
+| PScatter of scatterplot
+| PVor of voronoi
+| PPar of parallel
+
+(** val heatmap_1d :
+    geometry -> q list -> q option list -> opts -> (q * q) list -> heatmap **)
+
+let heatmap_1d g bnds cells o markers =
+  { hm_xb = bnds; hm_yb = ({ qnum = Z0; qden = XH } :: ({ qnum = (Zpos XH);
+    qden = XH } :: [])); hm_colors = (cells :: []); hm_xlim =
+    ((qnth g.g_lower O), (qnth g.g_upper O)); hm_ylim = None; hm_clim =
+    ((pick o.o_vmin (min_list (somes cells))),
+    (pick o.o_vmax (max_list (somes cells)))); hm_markers = markers }
+
+(** val grid2d_colors :
+    nat -> nat -> nat list -> q list -> q option list list **)
+
+let grid2d_colors dx dy idxs objs =
+  let g = map (unravel (dx :: (dy :: []))) idxs in
+  scatter2 (repeat (repeat None dx) dy)
+    (map (fun gi -> ((nth (S O) gi O), (nth O gi O))) g)
+    (map (fun x -> Some x) objs)
+
+(** val grid1d_cells : nat -> nat list -> q list -> q option list **)
+
+let grid1d_cells d idxs objs =
+  let cell_idx = map (fun i -> nth O (unravel (d :: []) i) O) idxs in
+  scatter (repeat None d) cell_idx (map (fun x -> Some x) objs)
+
+(** val grid_heatmap : geometry -> listing -> opts -> picture result **)
+
+let grid_heatmap g l o =
+  let idxs = map (fun e -> e.e_index) l in
+  let objs = map (fun e -> e.e_obj) l in
+  (match g.g_dims with
+   | [] -> Err ValueError
+   | dx :: l0 ->
+     (match l0 with
+      | [] ->
+        if all_below dx idxs
+        then Ok (PHeat
+               (heatmap_1d g (nth O g.g_boundaries [])
+                 (grid1d_cells dx idxs objs) o []))
+        else Err ValueError
+      | dy :: l1 ->
+        (match l1 with
+         | [] ->
+           if all_below (mul dx dy) idxs
+           then let colors = grid2d_colors dx dy idxs objs in
+                let xb = nth O g.g_boundaries [] in
+                let yb = nth (S O) g.g_boundaries [] in
+                let t = o.o_transpose in
+                let lo = if t then rev g.g_lower else g.g_lower in
+                let up = if t then rev g.g_upper else g.g_upper in
+                (match limits_strict o.o_vmin o.o_vmax objs with
+                 | Ok a ->
+                   let (vlo, vhi) = a in
+                   Ok (PHeat { hm_xb = (if t then yb else xb); hm_yb =
+                   (if t then xb else yb); hm_colors =
+                   (if t then transpose None dx colors else colors);
+                   hm_xlim = ((qnth lo O), (qnth up O)); hm_ylim = (Some
+                   ((qnth lo (S O)), (qnth up (S O)))); hm_clim = ((Some
+                   vlo), (Some vhi)); hm_markers = [] })
+                 | Err e -> Err e)
+           else Err ValueError
+         | _ :: _ -> Err ValueError)))
+
+(** val insert_idx : q list -> nat -> nat list -> nat list **)
+
+let rec insert_idx cs i l = match l with
+| [] -> i :: []
+| j :: t ->
+  if qle_bool (qnth cs i) (qnth cs j)
+  then i :: l
+  else j :: (insert_idx cs i t)
+
+(** val argsort : q list -> nat list **)
+
+let argsort cs =
+  fold_right (insert_idx cs) [] (seq O (length cs))
+
+(** val inverse_perm : nat list -> nat list **)
+
+let inverse_perm p =
+  scatter (repeat O (length p)) p (seq O (length p))
+
+(** val midpoints : q list -> q list **)
+
+let midpoints s =
+  map (fun ab ->
+    qdiv (qplus (fst ab) (snd ab)) { qnum = (Zpos (XO XH)); qden = XH })
+    (combine (removelast s) (tl s))
+
+(** val cvt1d_cells : q list -> nat list -> q list -> q option list **)
+
+let cvt1d_cells cs idxs objs =
+  let inv = inverse_perm (argsort cs) in
+  let selected_inv_idx = map (fun i -> nth i inv O) idxs in
+  scatter (repeat None (length cs)) selected_inv_idx
+    (map (fun x -> Some x) objs)
+
+(** val qclip01 : q -> q **)
+
+let qclip01 t =
+  if qle_bool t { qnum = Z0; qden = XH }
+  then { qnum = Z0; qden = XH }
+  else if qle_bool { qnum = (Zpos XH); qden = XH } t
+       then { qnum = (Zpos XH); qden = XH }
+       else t
+
+(** val cvt_heatmap : geometry -> listing -> opts -> picture result **)
+
+let cvt_heatmap g l o =
+  let idxs = map (fun e -> e.e_index) l in
+  let objs = map (fun e -> e.e_obj) l in
+  (match g.g_lower with
+   | [] -> Err ValueError
+   | _ :: l0 ->
+     (match l0 with
+      | [] ->
+        let cs = map (fun c -> qnth c O) g.g_centroids in
+        let sorted = map (qnth cs) (argsort cs) in
+        let bnds =
+          app ((qnth g.g_lower O) :: [])
+            (app (midpoints sorted) ((qnth g.g_upper O) :: []))
+        in
+        if all_below (length cs) idxs
+        then Ok (PHeat
+               (heatmap_1d g bnds (cvt1d_cells cs idxs objs) o
+                 (if o.o_lines
+                  then map (fun c -> (c, { qnum = (Zpos XH); qden = (XO
+                         XH) })) cs
+                  else [])))
+        else Err IndexError
+      | _ :: l1 ->
+        (match l1 with
+         | [] ->
+           let t = o.o_transpose in
+           let lo = if t then rev g.g_lower else g.g_lower in
+           let up = if t then rev g.g_upper else g.g_upper in
+           let sites0 = map pair2 g.g_centroids in
+           let sites = if t then map flip2 sites0 else sites0 in
+           let site_obj =
+             scatter (repeat None (length sites)) idxs
+               (map (fun x -> Some x) objs)
+           in
+           let drawn = somes site_obj in
+           let (ts, clim) =
+             match pick o.o_vmin (min_list drawn) with
+             | Some a ->
+               (match pick o.o_vmax (max_list drawn) with
+                | Some b ->
+                  let a' = if qeq_bool a b then qminus a c001 else a in
+                  let b' = if qeq_bool a b then qplus b c001 else b in
+                  ((map
+                     (option_map (fun ob ->
+                       qclip01 (qdiv (qminus ob a') (qminus b' a'))))
+                     site_obj), (Some (a', b')))
+                | None -> ((map (fun _ -> None) site_obj), None))
+             | None -> ((map (fun _ -> None) site_obj), None)
+           in
+           Ok (PVor { vo_sites = sites; vo_obj = site_obj; vo_t = ts;
+           vo_xlim = ((qnth lo O), (qnth up O)); vo_ylim = ((qnth lo (S O)),
+           (qnth up (S O))); vo_clim = clim; vo_markers =
+           (if o.o_lines then sites else []) })
+         | _ :: _ -> Err ValueError)))
+
+(** val sliding_heatmap : geometry -> listing -> opts -> picture result **)
+
+let sliding_heatmap g l o =
+  let objs = map (fun e -> e.e_obj) l in
+  (match g.g_dims with
+   | [] -> Err ValueError
+   | _ :: l0 ->
+     (match l0 with
+      | [] -> Err ValueError
+      | _ :: l1 ->
+        (match l1 with
+         | [] ->
+           let t = o.o_transpose in
+           let pts0 = map (fun e -> pair2 e.e_meas) l in
+           let pts = if t then map flip2 pts0 else pts0 in
+           let xb0 = nth O g.g_boundaries [] in
+           let yb0 = nth (S O) g.g_boundaries [] in
+           let xb = if t then yb0 else xb0 in
+           let yb = if t then xb0 else yb0 in
+           let lo = if t then rev g.g_lower else g.g_lower in
+           let up = if t then rev g.g_upper else g.g_upper in
+           (match limits_strict o.o_vmin o.o_vmax objs with
+            | Ok clim ->
+              Ok (PScatter { sc_offsets = pts; sc_array = objs; sc_vlines =
+                (if o.o_lines
+                 then map (fun x -> (x, ((qnth lo (S O)), (qnth up (S O)))))
+                        xb
+                 else []); sc_hlines =
+                (if o.o_lines
+                 then map (fun y -> (y, ((qnth lo O), (qnth up O)))) yb
+                 else []); sc_xlim = ((qnth lo O), (qnth up O)); sc_ylim =
+                ((qnth lo (S O)), (qnth up (S O))); sc_clim = clim })
+            | Err e -> Err e)
+         | _ :: _ -> Err ValueError)))
+
+(** val proximity_plot : geometry -> listing -> opts -> picture result **)
+
+let proximity_plot g l o =
+  let objs = map (fun e -> e.e_obj) l in
+  let t = o.o_transpose in
+  let pts0 = map (fun e -> pair2 e.e_meas) l in
+  let pts = if t then map flip2 pts0 else pts0 in
+  let bounds =
+    match o.o_bounds with
+    | Some p -> Ok p
+    | None ->
+      (match g.g_lower with
+       | [] -> Err RuntimeError
+       | _ :: _ ->
+         Ok ((map (fun x -> qminus x c001) g.g_lower),
+           (map (fun x -> qplus x c001) g.g_upper)))
+  in
+  (match bounds with
+   | Ok a ->
+     let (lo0, up0) = a in
+     let lo = if t then rev lo0 else lo0 in
+     let up = if t then rev up0 else up0 in
+     (match limits_strict o.o_vmin o.o_vmax objs with
+      | Ok clim ->
+        Ok (PScatter { sc_offsets = pts; sc_array = objs; sc_vlines = [];
+          sc_hlines = []; sc_xlim = ((qnth lo O), (qnth up O)); sc_ylim =
+          ((qnth lo (S O)), (qnth up (S O))); sc_clim = clim })
+      | Err e -> Err e)
+   | Err e -> Err e)
+
+(** val select : 'a1 -> nat list -> 'a1 list -> 'a1 list **)
+
+let select d cols l =
+  map (fun c -> nth c l d) cols
+
+(** val insert_obj : elite -> listing -> listing **)
+
+let rec insert_obj e l = match l with
+| [] -> e :: []
+| h :: t -> if qle_bool e.e_obj h.e_obj then e :: l else h :: (insert_obj e t)
+
+(** val sort_by_obj : listing -> listing **)
+
+let sort_by_obj l =
+  fold_right insert_obj [] l
+
+(** val normalize : q -> q -> q -> q **)
+
+let normalize vmin vmax x =
+  if qeq_bool vmin vmax
+  then { qnum = Z0; qden = XH }
+  else qdiv (qminus (qmin (qmax x vmin) vmax) vmin) (qminus vmax vmin)
+
+(** val to_axis0 : q -> q -> q -> q -> q -> q **)
+
+let to_axis0 lb0 r0 y lb ub =
+  qplus (qmult (qdiv (qminus y lb) (qminus ub lb)) r0) lb0
+
+(** val map3 :
+    ('a1 -> 'a2 -> 'a3 -> 'a4) -> 'a1 list -> 'a2 list -> 'a3 list -> 'a4 list **)
+
+let rec map3 f a b c =
+  match a with
+  | [] -> []
+  | x :: a' ->
+    (match b with
+     | [] -> []
+     | y :: b' ->
+       (match c with
+        | [] -> []
+        | z0 :: c' -> (f x y z0) :: (map3 f a' b' c')))
+
+(** val normalize_row : q list -> q list -> q list -> q list **)
+
+let normalize_row lo up = function
+| [] -> []
+| y0 :: rest ->
+  y0 :: (map3 (to_axis0 (qnth lo O) (qminus (qnth up O) (qnth lo O))) rest
+          (tl lo) (tl up))
+
+(** val parallel_axes : geometry -> listing -> opts -> picture result **)
+
+let parallel_axes g df o =
+  let m = length g.g_lower in
+  let cols = match o.o_order with
+             | Some c -> c
+             | None -> seq O m in
+  (match cols with
+   | [] -> Err ValueError
+   | _ :: _ ->
+     if negb (all_below m cols)
+     then Err ValueError
+     else let lo = select { qnum = Z0; qden = XH } cols g.g_lower in
+          let up = select { qnum = Z0; qden = XH } cols g.g_upper in
+          let vmin = pick o.o_vmin (min_list (map (fun e -> e.e_obj) df)) in
+          let vmax = pick o.o_vmax (max_list (map (fun e -> e.e_obj) df)) in
+          let df' = if o.o_sort then sort_by_obj df else df in
+          let objs = map (fun e -> e.e_obj) df' in
+          let ys =
+            map (fun e -> select { qnum = Z0; qden = XH } cols e.e_meas) df'
+          in
+          let ts =
+            match vmin with
+            | Some a ->
+              (match vmax with
+               | Some b -> map (normalize a b) objs
+               | None -> [])
+            | None -> []
+          in
+          Ok (PPar { pa_lines = (map (normalize_row lo up) ys); pa_objs =
+          objs; pa_t = ts; pa_ylims = (combine lo up); pa_clim = (vmin,
+          vmax) }))
+
+type kind =
+| KGrid
+| KCvt
+| KSliding
+| KProximity
+| KParallel
+
+(** val source : world -> opts -> listing **)
+
+let source w o =
+  if o.o_df
+  then (match w.w_frame with
+        | Some f -> f
+        | None -> w.w_elites)
+  else w.w_elites
+
+(** val draw : kind -> geometry -> listing -> opts -> picture result **)
+
+let draw k g l o =
+  match k with
+  | KGrid -> grid_heatmap g l o
+  | KCvt -> cvt_heatmap g l o
+  | KSliding -> sliding_heatmap g l o
+  | KProximity -> proximity_plot g l o
+  | KParallel -> parallel_axes g l o
+
+(** val plot : world -> (kind * opts) -> world * picture result **)
+
+let plot w c =
+  (w, (draw (fst c) w.w_geom (source w (snd c)) (snd c)))
+
+(** val err_code0 : err -> z **)
+
+let err_code0 = function
+| ValueError -> Zpos XH
+| IndexError -> Zpos (XO XH)
+| RuntimeError -> Zpos (XI XH)
+| KeyError -> Zpos (XO (XO XH))
+| TypeError -> Zpos (XI (XO XH))
+| StopIteration -> Zpos (XO (XI XH))
+| OtherError -> Zpos (XI (XI XH))
+
+(** val dql : sx -> q list option **)
+
+let dql =
+  dlist dq
+
+(** val delite : sx -> elite option **)
+
+let delite = function
+| SZ _ -> None
+| SL l ->
+  (match l with
+   | [] -> None
+   | i :: l0 ->
+     (match l0 with
+      | [] -> None
+      | ob :: l1 ->
+        (match l1 with
+         | [] -> None
+         | m :: l2 ->
+           (match l2 with
+            | [] ->
+              (match dnat i with
+               | Some i' ->
+                 (match dq ob with
+                  | Some ob' ->
+                    (match dql m with
+                     | Some m' ->
+                       Some { e_index = i'; e_obj = ob'; e_meas = m' }
+                     | None -> None)
+                  | None -> None)
+               | None -> None)
+            | _ :: _ -> None))))
+
+(** val dgeom : sx -> geometry option **)
+
+let dgeom = function
+| SZ _ -> None
+| SL l ->
+  (match l with
+   | [] -> None
+   | d :: l0 ->
+     (match l0 with
+      | [] -> None
+      | b :: l1 ->
+        (match l1 with
+         | [] -> None
+         | lo :: l2 ->
+           (match l2 with
+            | [] -> None
+            | up :: l3 ->
+              (match l3 with
+               | [] -> None
+               | c :: l4 ->
+                 (match l4 with
+                  | [] ->
+                    (match dlist dnat d with
+                     | Some d' ->
+                       (match dlist dql b with
+                        | Some b' ->
+                          (match dql lo with
+                           | Some lo' ->
+                             (match dql up with
+                              | Some up' ->
+                                (match dlist dql c with
+                                 | Some c' ->
+                                   Some { g_dims = d'; g_boundaries = b';
+                                     g_lower = lo'; g_upper = up';
+                                     g_centroids = c' }
+                                 | None -> None)
+                              | None -> None)
+                           | None -> None)
+                        | None -> None)
+                     | None -> None)
+                  | _ :: _ -> None))))))
+
+(** val dbounds : sx -> (q list * q list) option **)
+
+let dbounds = function
+| SZ _ -> None
+| SL l ->
+  (match l with
+   | [] -> None
+   | lo :: l0 ->
+     (match l0 with
+      | [] -> None
+      | up :: l1 ->
+        (match l1 with
+         | [] ->
+           (match dql lo with
+            | Some a ->
+              (match dql up with
+               | Some b -> Some (a, b)
+               | None -> None)
+            | None -> None)
+         | _ :: _ -> None)))
+
+(** val dopts : sx -> opts option **)
+
+let dopts = function
+| SZ _ -> None
+| SL l ->
+  (match l with
+   | [] -> None
+   | df :: l0 ->
+     (match l0 with
+      | [] -> None
+      | tr :: l1 ->
+        (match l1 with
+         | [] -> None
+         | vmin :: l2 ->
+           (match l2 with
+            | [] -> None
+            | vmax :: l3 ->
+              (match l3 with
+               | [] -> None
+               | srt :: l4 ->
+                 (match l4 with
+                  | [] -> None
+                  | ord :: l5 ->
+                    (match l5 with
+                     | [] -> None
+                     | lines :: l6 ->
+                       (match l6 with
+                        | [] -> None
+                        | bnds :: l7 ->
+                          (match l7 with
+                           | [] ->
+                             (match dbool df with
+                              | Some df' ->
+                                (match dbool tr with
+                                 | Some tr' ->
+                                   (match dopt dq vmin with
+                                    | Some vmin' ->
+                                      (match dopt dq vmax with
+                                       | Some vmax' ->
+                                         (match dbool srt with
+                                          | Some srt' ->
+                                            (match dopt (dlist dnat) ord with
+                                             | Some ord' ->
+                                               (match dbool lines with
+                                                | Some lines' ->
+                                                  (match dopt dbounds bnds with
+                                                   | Some bnds' ->
+                                                     Some { o_df = df';
+                                                       o_transpose = tr';
+                                                       o_vmin = vmin';
+                                                       o_vmax = vmax';
+                                                       o_sort = srt';
+                                                       o_order = ord';
+                                                       o_lines = lines';
+                                                       o_bounds = bnds' }
+                                                   | None -> None)
+                                                | None -> None)
+                                             | None -> None)
+                                          | None -> None)
+                                       | None -> None)
+                                    | None -> None)
+                                 | None -> None)
+                              | None -> None)
+                           | _ :: _ -> None)))))))))
+
+(** val dkind : sx -> kind option **)
+
+let dkind = function
+| SZ z0 ->
+  (match z0 with
+   | Z0 -> Some KGrid
+   | Zpos p ->
+     (match p with
+      | XI p0 -> (match p0 with
+                  | XH -> Some KProximity
+                  | _ -> None)
+      | XO p0 ->
+        (match p0 with
+         | XI _ -> None
+         | XO p1 -> (match p1 with
+                     | XH -> Some KParallel
+                     | _ -> None)
+         | XH -> Some KSliding)
+      | XH -> Some KCvt)
+   | Zneg _ -> None)
+| SL _ -> None
+
+(** val eqq : (q * q) -> sx **)
+
+let eqq p =
+  SL ((eq_ (fst p)) :: ((eq_ (snd p)) :: []))
+
+(** val eql : q list -> sx **)
+
+let eql l =
+  elist eq_ l
+
+(** val eoq : q option -> sx **)
+
+let eoq =
+  eopt eq_
+
+(** val eline : (q * (q * q)) -> sx **)
+
+let eline p =
+  SL ((eq_ (fst p)) :: ((eqq (snd p)) :: []))
+
+(** val epicture : picture -> sx list **)
+
+let epicture = function
+| PHeat h ->
+  (SZ
+    Z0) :: ((eql h.hm_xb) :: ((eql h.hm_yb) :: ((elist (elist eoq)
+                                                  h.hm_colors) :: ((eqq
+                                                                    h.hm_xlim) :: (
+    (eopt eqq h.hm_ylim) :: ((SL
+    ((eoq (fst h.hm_clim)) :: ((eoq (snd h.hm_clim)) :: []))) :: ((elist eqq
+                                                                    h.hm_markers) :: [])))))))
+| PScatter s ->
+  (SZ (Zpos
+    XH)) :: ((elist eqq s.sc_offsets) :: ((eql s.sc_array) :: ((elist eline
+                                                                 s.sc_vlines) :: (
+    (elist eline s.sc_hlines) :: ((eqq s.sc_xlim) :: ((eqq s.sc_ylim) :: (
+    (eqq s.sc_clim) :: [])))))))
+| PVor v ->
+  (SZ (Zpos (XO
+    XH))) :: ((elist eqq v.vo_sites) :: ((elist eoq v.vo_obj) :: ((elist eoq
+                                                                    v.vo_t) :: (
+    (eqq v.vo_xlim) :: ((eqq v.vo_ylim) :: ((eopt eqq v.vo_clim) :: (
+    (elist eqq v.vo_markers) :: [])))))))
+| PPar p0 ->
+  (SZ (Zpos (XI
+    XH))) :: ((elist eql p0.pa_lines) :: ((eql p0.pa_objs) :: ((eql p0.pa_t) :: (
+    (elist eqq p0.pa_ylims) :: ((SL
+    ((eoq (fst p0.pa_clim)) :: ((eoq (snd p0.pa_clim)) :: []))) :: [])))))
+
+(** val eelite : elite -> sx **)
+
+let eelite e =
+  SL ((enat e.e_index) :: ((eq_ e.e_obj) :: ((eql e.e_meas) :: [])))
+
+(** val eworld : world -> sx **)
+
+let eworld w =
+  SL ((elist eelite w.w_elites) :: ((eopt (elist eelite) w.w_frame) :: []))
+
+(** val run_C20 : sx -> sx **)
+
+let run_C20 = function
+| SZ _ -> sx_fail
+| SL l ->
+  (match l with
+   | [] -> sx_fail
+   | k :: l0 ->
+     (match l0 with
+      | [] -> sx_fail
+      | g :: l1 ->
+        (match l1 with
+         | [] -> sx_fail
+         | es :: l2 ->
+           (match l2 with
+            | [] -> sx_fail
+            | fr :: l3 ->
+              (match l3 with
+               | [] -> sx_fail
+               | o :: l4 ->
+                 (match l4 with
+                  | [] ->
+                    (match dkind k with
+                     | Some k' ->
+                       (match dgeom g with
+                        | Some g' ->
+                          (match dlist delite es with
+                           | Some es' ->
+                             (match dopt (dlist delite) fr with
+                              | Some fr' ->
+                                (match dopts o with
+                                 | Some o' ->
+                                   let w = { w_geom = g'; w_elites = es';
+                                     w_frame = fr' }
+                                   in
+                                   let (w', r) = plot w (k', o') in
+                                   (match r with
+                                    | Ok p ->
+                                      SL ((SZ
+                                        Z0) :: (app (epicture p)
+                                                 ((eworld w') :: [])))
+                                    | Err e ->
+                                      SL ((SZ
+                                        (err_code0 e)) :: ((eworld w') :: [])))
+                                 | None -> sx_fail)
+                              | None -> sx_fail)
+                           | None -> sx_fail)
+                        | None -> sx_fail)
+                     | None -> sx_fail)
+                  | _ :: _ -> sx_fail))))))
